@@ -25,12 +25,14 @@ func New[T comparable]() *Notifier[T] {
 	}
 }
 
-func (v *Notifier[T]) removeListener(value T) {
+func (v *Notifier[T]) removeListener(value T, registeredListeners *listener) {
 	v.mutex.Lock()
 	defer v.mutex.Unlock()
 
+	// the entry the listener was registered in may be gone (Notify removes it) and a new one may have been created
+	// for the same value since: only the listener's own entry may be touched.
 	valueListeners, exists := v.listeners.Get(value)
-	if !exists {
+	if !exists || valueListeners != registeredListeners {
 		return
 	}
 	valueListeners.count--
@@ -50,15 +52,15 @@ func (v *Notifier[T]) Listener(value T) *Listener {
 	if valueListener, exists := v.listeners.Get(value); exists {
 		valueListener.count++
 		return newListener(valueListener.channel, func() {
-			v.removeListener(value)
+			v.removeListener(value, valueListener)
 		})
 	}
 
-	msgProcessedChan := make(chan struct{})
-	v.listeners.Set(value, &listener{msgProcessedChan, 1})
+	valueListener := &listener{make(chan struct{}), 1}
+	v.listeners.Set(value, valueListener)
 
-	return newListener(msgProcessedChan, func() {
-		v.removeListener(value)
+	return newListener(valueListener.channel, func() {
+		v.removeListener(value, valueListener)
 	})
 }
 
